@@ -302,8 +302,24 @@ def spm(ctx, obs):
                             for x in ast.walk(lp))
             if not read_back:
                 continue
-            lossy = any(isinstance(x, ast.Attribute) and x.attr in ('shape', 'size', 'ndim') for x in ast.walk(key)) or \
-                any(isinstance(x, ast.Call) and _leaf(x.func) == 'len' for x in ast.walk(key))
+            local = {s_.targets[0].id: s_.value for s_ in ast.walk(lp) if isinstance(s_, ast.Assign) and isinstance(s_.targets[0], ast.Name)}
+
+            def expand(e, depth=0):
+                """attribute roots (self.<attr>) an expression reads, through loop-local names"""
+                out = set()
+                for x in ast.walk(e):
+                    if isinstance(x, ast.Attribute) and isinstance(x.value, ast.Name) and x.value.id == 'self':
+                        out.add(x.attr)
+                    if isinstance(x, ast.Name) and x.id in local and depth < 4:
+                        out |= expand(local[x.id], depth + 1)
+                return out
+            key_e = local.get(key.id, key) if isinstance(key, ast.Name) else key
+            lossy = any(isinstance(x, ast.Attribute) and x.attr in ('shape', 'size', 'ndim') for x in ast.walk(key_e)) or \
+                any(isinstance(x, ast.Call) and _leaf(x.func) == 'len' for x in ast.walk(key_e))
+            # a key computed from OTHER per-run data than the cached value does not determine the value
+            kroots, vroots = expand(key_e), expand(st.value)
+            if not lossy and kroots and vroots and not (kroots & vroots):
+                lossy = True
             by_index = isinstance(key, ast.Name) and key.id == lv
             con = 'a value cached across runs is keyed by the run'
             if by_index:
